@@ -55,19 +55,16 @@ func (p *dedupProcessor) Process(iqr *iqr.IQR) (*iqr.IQR, error) {
 		p.combinationHashes = make(map[uint64]int)
 	}
 
-	fieldToValues := make(map[string][]sutils.CValueEnclosure)
-	for _, field := range p.options.FieldList {
-		values, err := iqr.ReadColumn(field)
-		if err != nil {
-			if p.options.DedupOptions.KeepEmpty {
-				return iqr, nil
-			} else {
-				// Drop all rows.
-				return nil, nil
-			}
+	// A field that is not a column of this IQR reads as a column of nulls, so
+	// every record is handled by the empty-field rules below.
+	fieldToValues, err := iqr.ReadColumnsWithBackfill(p.options.FieldList)
+	if err != nil {
+		if p.options.DedupOptions.KeepEmpty {
+			return iqr, nil
+		} else {
+			// Drop all rows.
+			return nil, nil
 		}
-
-		fieldToValues[field] = values
 	}
 
 	numRecords := len(fieldToValues[p.options.FieldList[0]])
